@@ -59,4 +59,9 @@ def loaderOk (n bs : Nat) (shuffle : Bool) (ids sizes extraIds : List Nat) : Boo
   (sizes.dropLast).all (fun s => s == bs) &&
   (extraIds.isEmpty || extraIds == ids)
 
+/-- Fetching an explicit index batch (any order, gaps, repetitions): the delivered instance ids are
+exactly the requested ones in the requested order, and every extra value is the one of its instance. -/
+def fetchOk (requested delivered extraIds : List Nat) : Bool :=
+  delivered == requested && (extraIds.isEmpty || extraIds == requested)
+
 end Rl4co.Spec.Ops
